@@ -1,6 +1,6 @@
 /* a small terminal emulator for the subset of sequences term.c emits: CUP, CUF/CUB, EL, IL, DL, DECSTBM,
- * SGR (ignored), CR, LF, single-width characters (bytes >= 0x80 are stored as they come, one cell per
- * character start) */
+ * SGR (ignored), CR, LF, single-width characters (one cell per character start; a multi-byte character is
+ * stored as 0x80 | low bit of its lead byte << 6 | low six bits of its continuation bytes xor-ed) */
 #ifndef VT_H
 #define VT_H
 #include <string.h>
@@ -10,6 +10,7 @@ struct vt {
 	int rows, cols, r, c, top, bot;	/* size, cursor, scroll region (inclusive) */
 	char cell[VT_ROWS][VT_COLS];
 	int bad;			/* sequences outside the subset */
+	int lr, lc, lk;			/* cell of the multi-byte character being received, bytes seen */
 };
 static void vt_init(struct vt *t, int rows, int cols)
 {
@@ -102,10 +103,20 @@ static void vt_feed(struct vt *t, const char *s, long n)
 			else if (t->r < t->rows - 1)
 				t->r++;
 		} else if (ch >= 0x20 && ch != 0x7f) {
-			if ((ch & 0xc0) == 0x80)
-				continue;		/* continuation byte of a character already placed */
-			if (t->r < VT_ROWS && t->c < VT_COLS)
-				t->cell[t->r][t->c] = ch < 0x80 ? ch : '?';
+			if ((ch & 0xc0) == 0x80) {	/* continuation byte of a character already placed */
+				if (t->lk > 0 && t->lr < VT_ROWS && t->lc < VT_COLS)
+					t->cell[t->lr][t->lc] ^= ch & 0x3f;
+				continue;
+			}
+			t->lk = 0;
+			if (t->r < VT_ROWS && t->c < VT_COLS) {
+				t->cell[t->r][t->c] = ch < 0x80 ? ch : (0x80 | ((ch & 1) << 6));
+				if (ch >= 0x80) {
+					t->lr = t->r;
+					t->lc = t->c;
+					t->lk = 1;
+				}
+			}
 			if (t->c < t->cols - 1)
 				t->c++;
 		} else {
